@@ -286,6 +286,33 @@ def score_pairing_monitor(rep, kind, method, s, val, full_val, sc, full_sc, samp
             return
 
 
+def mfpca_pairing_monitor(rep, data, default_exp):
+    """MFPCA(covariance): the eigenfunction reported with eigenvalue k is built from THE eigenvector of eigenvalue k, every
+    component from its own block of it: the reported eigenfunctions are then orthonormal in the product space and
+    inverse_transform of the k-th unit score vector is mean + that eigenfunction."""
+    from FDApy.preprocessing.dim_reduction.mfpca import MFPCA
+    K = 3
+    with warnings.catch_warnings():
+        warnings.simplefilter("ignore")
+        f = MFPCA(n_components=K, method="covariance",
+                  univariate_expansions=[({"method": "UFPCA"} if default_exp else {"method": "UFPCA", "n_components": 3})
+                                         for _ in data.data])
+        f.fit(data, method_smoothing=None)
+        E = [np.asarray(c.values, float) for c in f.eigenfunctions.to_grid().data]
+        grids = [np.asarray(c.argvals["input_dim_0"], float) for c in data.data]
+        nus = np.asarray(f.eigenvalues, float)
+    if len(nus) != K or not all(np.all(np.isfinite(e)) for e in E):
+        return
+    G = sum(np.array([[np.trapz(E[p][j] * E[p][k], grids[p]) for k in range(K)] for j in range(K)]) for p in range(len(E)))
+    rep.dist[f"mfpca-pairing/P={len(E)}"] = rep.dist.get(f"mfpca-pairing/P={len(E)}", 0) + 1
+    if np.max(np.abs(G - np.eye(K))) > 1e-6:
+        rep.violation(f"MFPCA(covariance) on {len(E)} components: the eigenfunctions reported with the eigenvalues are not the "
+                      f"orthonormal product-space eigenfunctions (max deviation of their Gram matrix from the identity "
+                      f"{np.max(np.abs(G - np.eye(K))):.3g}): a component is not built from its own block of the eigenvector",
+                      {"level": "api", "estimator": "MFPCA", "n_components": K, "n_functional": len(E),
+                       "data_values": [C.hexf(np.asarray(c.values)) for c in data.data]})
+
+
 def pairing_monitor(rep, data, val, fun, s, grid):
     """Each eigenfunction stays paired with ITS eigenvalue: C (w . phi_k) = lambda_k phi_k (covariance method)."""
     from FDApy.misc.utils import _integration_weights
@@ -332,8 +359,11 @@ def api_level(rep, rng, quick):
         elif kind == "UFPCA":
             data = make_dense(rng, n, m, grid, rough)
         else:
-            data = MultivariateFunctionalData([make_dense(rng, n, m, grid, rough),
-                                               make_dense(rng, n, m + 1, "uniform", not rough)])
+            comps_mv = [make_dense(rng, n, m, grid, rough), make_dense(rng, n, m + 1, "uniform", not rough)]
+            if i % 8 == 3:
+                comps_mv.append(make_dense(rng, n, m + 3, "nonuniform", rough))      # three components of different sizes
+            data = MultivariateFunctionalData(comps_mv)
+            mfpca_pairing_monitor(rep, data, default_exp=(i % 8 == 7))
         for method in ("covariance", "inner-product"):
             try:
                 full_val, full_fun = api_fit(kind, method, data, None, default_exp=(i % 8 == 7))
